@@ -305,6 +305,14 @@ func c20KnownShift(t string) bool {
 		strings.Index(u, "DESIGNER") != strings.Index(string(a), "DESIGNER")
 }
 
+// c20Short quotes s, abbreviating the middle of long strings.
+func c20Short(s string) string {
+	if len(s) <= 160 {
+		return strconv.Quote(s)
+	}
+	return fmt.Sprintf("%s...(%d bytes)...%s", strconv.Quote(s[:60]), len(s), strconv.Quote(s[len(s)-40:]))
+}
+
 type c20Result struct {
 	s     string
 	err   string
@@ -417,7 +425,7 @@ func c20Judge(t, id string, noise func()) (v kit.Verdict) {
 	c20IdentClasses(id, add)
 
 	fail := func(format string, args ...any) kit.Verdict {
-		v.Fail = fmt.Sprintf("FileNamingFormat(%q, %q): ", t, id) + fmt.Sprintf(format, args...)
+		v.Fail = fmt.Sprintf("FileNamingFormat(%q, %s): ", t, c20Short(id)) + fmt.Sprintf(format, args...)
 		if shift {
 			v.Known = "upper-index-shift"
 		}
@@ -438,7 +446,7 @@ func c20Judge(t, id string, noise func()) (v kit.Verdict) {
 
 	if len(parses) == 0 {
 		if !r1.isErr {
-			return fail("template lacks a word or has the words in the wrong order (%s) but was accepted: %q", tclass, r1.s)
+			return fail("template lacks a word or has the words in the wrong order (%s) but was accepted: %s", tclass, c20Short(r1.s))
 		}
 		return v
 	}
@@ -482,12 +490,15 @@ func c20Judge(t, id string, noise func()) (v kit.Verdict) {
 		want = append(want, cands...)
 	}
 	if nrender == 0 {
-		return fail("template has the words only in mixed casing (%s) but was accepted: %q", tclass, r1.s)
+		return fail("template has the words only in mixed casing (%s) but was accepted: %s", tclass, c20Short(r1.s))
 	}
 	if len(want) > 6 {
 		want = want[:6]
 	}
-	return fail("got %q, want one of %q", r1.s, want)
+	for i := range want {
+		want[i] = c20Short(want[i])
+	}
+	return fail("got %s, want one of [%s]", c20Short(r1.s), strings.Join(want, " "))
 }
 
 // ---------------------------------------------------------------- generators
